@@ -87,9 +87,12 @@ PROPS = {
                        "held at every access and released on return (complete; roots are parked as junk outside critical sections so an "
                        "unlocked access breaks the postcondition); thorough tier: during a reload no add/remove reaches the live tables "
                        "before the swap and each table is swapped exactly once (units store_*). The interleaving argument (rwlock mutual "
-                       "exclusion => a reader sees the old or the new set) is a paper lemma, not mechanised. With a non-empty response the choice of the "
-                       "table that receives the records is NOT decided by a registered check (store_* shapes with payload and spki_copy are lab tier; "
-                       "a seeded change of that kind is missed, DESIGN.md section 6).",
+                       "exclusion => a reader sees the old or the new set) is a paper lemma, not mechanised. Which table receives the records: unit store_choice runs the REAL control "
+                       "flow of the payload phase (receive loop, End of Data, shadow set-up, choice of the update tables, apply loops with "
+                       "roll-back, swap, clean-up) for one payload PDU of any type with receive, buffering, apply and undo replaced by "
+                       "their contracts in client reading (bounded): in a reload every apply / undo call is handed the shadow table, "
+                       "outside a reload the live table; exactly one swap per table on success. Whole responses with real apply code "
+                       "(store_* payload shapes) and spki_table_copy_except_socket (spki_copy) are lab tier.",
         "trusted": ["pthread rwlock semantics"],
         "assumptions": ["no schedule is explored"],
     },
@@ -453,14 +456,14 @@ UNITS = [
       defines=["STORE_SHAPE=9", "STORE_RECV_CONTRACT", "STORE_TERM_EOD"], unwind_functions={"rtr_sync_receive_and_store_pdus": 3, "strlen": 70},
       native=None, link=PKT_LINK, timeout=2400, object_bits=12, mem_gb=40,
       stubs=["lrtr_malloc", "lrtr_realloc", "lrtr_free", "pfx_table_*", "spki_table_*", "lrtr_dbg", "pthread_setcancelstate"]),
-    U(id="store_choice", props=["C06"], file="units/store.c", entry="h_store", tier="lab",
+    U(id="store_choice", props=["C06"], file="units/store.c", entry="h_store", tier="quick",
       enforce=[], checked_by_assertions=["rtr_sync_receive_and_store_pdus"], need_classes=["assertion", "precondition"],
       replace=["rtr_receive_pdu/rtr_receive_pdu__store", "rtr_send_error_pdu_from_host", "rtr_handle_error_pdu/rtr_handle_error_pdu__client", "verif_fmt",
                "rtr_store_prefix_pdu/rtr_store_prefix_pdu__choice", "rtr_store_router_key_pdu/rtr_store_router_key_pdu__choice",
                "rtr_update_pfx_table/rtr_update_pfx_table__choice", "rtr_undo_update_pfx_table/rtr_undo_update_pfx_table__choice",
                "rtr_update_spki_table/rtr_update_spki_table__choice", "rtr_undo_update_spki_table/rtr_undo_update_spki_table__choice"],
       kind="bounded: one payload PDU of any type (IPv4 / IPv6 prefix or router key) + terminal event; buffering, apply and undo by contract",
-      defines=["STORE_SHAPE=4", "STORE_RECV_CONTRACT", "STORE_CHOICE"], unwind_functions={"rtr_sync_receive_and_store_pdus": 3, "strlen": 70},
+      defines=["STORE_SHAPE=4", "STORE_RECV_CONTRACT", "STORE_CHOICE"], unwindset={"rtr_sync_receive_and_store_pdus.%d" % i: 2 for i in range(9)}, unwind_functions={"rtr_sync_receive_and_store_pdus": 3, "strlen": 70},
       native=None, link=PKT_LINK, timeout=2400, object_bits=13, mem_gb=40,
       stubs=["lrtr_malloc", "lrtr_realloc", "lrtr_free", "pfx_table_*", "spki_table_*", "lrtr_dbg", "pthread_setcancelstate"]),
     U(id="store_E", props=["C03", "C05", "C06", "C13", "C14", "C17"], file="units/store.c", entry="h_store", tier="thorough",
